@@ -57,9 +57,7 @@ def h_log3_exp3(w):
 
 
 def _halfturn(w, name='n'):
-    """R = 2 n n^T - I : every rotation by exactly pi (trace = -1)"""
-    n = w.unit3(name)
-    return w.array([[2 * n[i] * n[j] - (1 if i == j else 0) for j in range(3)] for i in range(3)]), n
+    return H.halfturn(w, name)
 
 
 def h_exp3_log3(w):
